@@ -5,4 +5,3 @@ CONSTANTS
   MaxDepth = 60
   MaxIter = 400
 INVARIANTS TypeOK FetchAligned NeverStuck NoUnderflow FramesNested EndsBalanced
-PROPERTY Stops
